@@ -11,6 +11,7 @@ import (
 	"errors"
 	"fmt"
 	"io"
+	"slices"
 
 	"github.com/andybalholm/brotli"
 	"github.com/klauspost/compress/zstd"
@@ -520,10 +521,31 @@ func (c *UConn) clientHandshake(ctx context.Context) (err error) {
 		return err
 	}
 
+	// [uTLS section begins]
+	// The version range accepted above comes from the spec's TLSVersMin/TLSVersMax,
+	// while the versions advertised on the wire come from the spec's
+	// SupportedVersionsExtension. Never settle on a version the ClientHello did
+	// not list (hello.supportedVersions is that list when the extension is sent,
+	// and the [max..min] range otherwise).
+	if len(hello.supportedVersions) > 0 && !slices.Contains(hello.supportedVersions, c.vers) {
+		c.sendAlert(alertProtocolVersion)
+		return fmt.Errorf("tls: server selected protocol version %x which the ClientHello did not offer", c.vers)
+	}
+	// [uTLS section ends]
+
 	// If we are negotiating a protocol version that's lower than what we
 	// support, check for the server downgrade canaries.
 	// See RFC 8446, Section 4.1.3.
 	maxVers := c.config.maxSupportedVersion(roleClient)
+	// [uTLS section begins]
+	// The sentinel protects what the ClientHello offered, which for a spec whose
+	// SupportedVersionsExtension lists more than TLSVersMax exceeds Config.MaxVersion.
+	for _, v := range hello.supportedVersions {
+		if (v == VersionTLS13 || v == VersionTLS12) && v > maxVers {
+			maxVers = v
+		}
+	}
+	// [uTLS section ends]
 	tls12Downgrade := string(serverHello.random[24:]) == downgradeCanaryTLS12
 	tls11Downgrade := string(serverHello.random[24:]) == downgradeCanaryTLS11
 	if maxVers == VersionTLS13 && c.vers <= VersionTLS12 && (tls12Downgrade || tls11Downgrade) ||
